@@ -20,7 +20,7 @@ PROPS["C13"] = dict(
                # the premise "begin/end pairs": every body in the repository that calls Do/DonePrioritizedTask, re-extracted from the source
                dict(cmd="taskpairs", mod="root", model="Model.TaskPairs", quick=100, thorough=5000, shard=50,
                     require=["site", "site.fs/fs.go", "site.fs/layer/layer.go", "site.store/manager.go", "synthetic",
-                             "verdict.rule-true.leak-false", "verdict.rule-false.leak-true", "verdict.rule-false.leak-false"])],
+                             "verdict.rule-true.leak-false", "verdict.rule-false.leak-true"])],
     rule="scripted schedules on the real task.BackgroundTaskManager (concurrency 1..3, up to 4 concurrent invocations whose bodies "
          "finish / react to cancellation only when the script says so (manual) or on cancellation (prompt), up to 3 overlapping prioritized "
          "begin/end pairs, silence periods ended by the script, each op either followed by a settle or racing with the manager's goroutines); the manager's decisions are recorded through the verif hooks in its own lock order; "
